@@ -351,6 +351,11 @@ class Cluster:
         old = self.insts[name]
         old.alive = False
         self.dead.append(old)
+        # whatever was on its way to or from the lost process is gone with it
+        for (s, d) in list(self.net.links):
+            if d == name or s == name:
+                self.net.links[(s, d)] = []
+                self.net.meta[(s, d)] = []
         self.gens[name] += 1
         self.insts[name] = self._mk(name, self.gens[name])
 
